@@ -832,6 +832,20 @@ def oracle_reference(ctx, cfg, rr, tol=5e-3, key='grad-vs-reference'):
                     return
 
 
+def oracle_state_keys(ctx, cfg, rr):
+    """a saved state carries the step count and exactly the scalar hyper-parameters that are not callables (those are
+    what load_state_dict can restore)"""
+    if run_failed(rr):
+        return
+    changed = set()
+    want0 = {'steps'} | {n for n, v in cfg.hyper.items() if not isinstance(v, list)}
+    for r in range(cfg.world):
+        for rec in rr.res[r]['ops']:
+            if rec['op'] in ('v1', 'v0') and 'keys' in rec and set(rec['keys']) != want0:
+                return ctx.fail(f'rank {r}: state_dict() holds {sorted(rec["keys"])}, expected the step count and the non-callable '
+                                f'hyper-parameters {sorted(want0)}', cfg.describe(), 'state-keys')
+
+
 def oracle_trace(ctx, cfg, rr, key_prefix='trace'):
     """C03 evaluated directly on the recorded traces of all ranks."""
     case = cfg.describe()
